@@ -388,6 +388,12 @@ where
                 if !ok {
                     c.fail("json_predictions_equal_up_to_rounding", "predictions of the restored (JSON) object differ from the original's by more than the decimal rounding");
                 }
+                // types without PartialEq (parameter structs, enums, distances, kernels, linear search) have no
+                // other witness of their fields: the rendering must survive (serde_json is built with
+                // float_roundtrip, so the decimal text is exact)
+                if eq.is_none() && !nonfinite && format!("{:?}", r) != dbg0 {
+                    c.fail("json_state_identical", "Debug rendering of the object restored from JSON text differs from the original's (a field or variant changed)");
+                }
             }
         },
     }
@@ -400,6 +406,10 @@ where
                     let o1 = guard(|| obs(&r));
                     if !same_obs(&o0, &o1) {
                         c.fail("json_value_predictions_identical", "predictions of the object restored from serde_json::Value (keys in sorted order) differ");
+                    }
+                    // no decimal text on this path: every field must come back exactly (covers the fields PartialEq ignores)
+                    if format!("{:?}", r) != dbg0 {
+                        c.fail("json_state_identical", "Debug rendering of the object restored from serde_json::Value differs from the original's (a field or variant changed)");
                     }
                 }
                 Ok(Err(e)) => c.fail("json_deserialise", &format!("serde_json::from_value (sorted keys): {}", e)),
@@ -1218,7 +1228,7 @@ where
         var!(vs, base, lab("algorithm=CoverTree"), |p| p.algorithm = KNNAlgorithmName::CoverTree);
         var!(vs, base, lab("weight=Uniform"), |p| p.weight = KNNWeightFunction::Uniform);
         var!(vs, base, lab("weight=Distance"), |p| p.weight = KNNWeightFunction::Distance);
-        var!(vs, base, lab("k=1"), |p| p.k = 1);
+        var!(vs, base, lab("k=2(smallest-legal)"), |p| p.k = 2);
         var!(vs, base, lab("k=n"), |p| p.k = n);
         for (l, dv) in more.iter() {
             var!(vs, base, format!("distance={}", l), |p| p = p.with_distance(dv.clone()));
@@ -2161,6 +2171,66 @@ pub fn run_case(out: &mut Out, mode: Mode, kind: &str, case_seed: u64, width: Op
     }
 }
 
+/// corpus / replay inputs that carry their data explicitly (independent of the generators)
+fn run_explicit(out: &mut Out, inp: &Value) -> bool {
+    let x = rows_from_json(&inp["x"]);
+    let y = f64s_from_json(&inp["y"]);
+    let q = rows_from_json(&inp["queries"]);
+    let kind = inp["kind"].as_str().unwrap_or("").to_string();
+    let mut c = Case { out, tname: kind.clone(), input: inp.clone(), f32m: false, mode: Mode::Search };
+    c.out.eval(hash_of(&inp.to_string()), true);
+    match kind.as_str() {
+        "BernoulliNB" => {
+            c.tname = "BernoulliNB".into();
+            let mut pr = BernoulliNBParameters::default().with_alpha(inp["alpha"].as_f64().unwrap_or(1.0));
+            pr.binarize = inp["binarize"].as_f64();
+            check_params(&mut c, &pr);
+            match guard(|| BernoulliNB::fit(&mat::<f64>(&x), &y, pr.clone())) {
+                Ok(Ok(m)) => {
+                    check_roundtrip(&mut c, &m, eq_of(), &|mm: &BernoulliNB<f64, DenseMatrix<f64>>| predict_obs(mm.predict(&mat::<f64>(&q))));
+                }
+                _ => c.fail("serialise_never_fails", "corpus: BernoulliNB::fit failed on the corpus input"),
+            }
+            true
+        }
+        "KNNRegressor-prefix" => {
+            c.tname = "KNNRegressor".into();
+            let cut = inp["prefix"].as_u64().unwrap_or(1) as usize;
+            let k = inp["k"].as_u64().unwrap_or(1) as usize;
+            let fit = |rows: usize| KNNRegressor::fit(&mat::<f64>(&x[..rows]), &y[..rows].to_vec(), KNNRegressorParameters::default().with_k(k));
+            match (guard(|| fit(cut.min(x.len()))), guard(|| fit(x.len()))) {
+                (Ok(Ok(a)), Ok(Ok(b))) => {
+                    let (oa, ob) = (predict_obs(a.predict(&mat::<f64>(&q))), predict_obs(b.predict(&mat::<f64>(&q))));
+                    if !close(&oa, &ob, 1e-9) && (a == b || b == a) {
+                        c.fail("related_data_unequal", "[row-prefix] the two models compare equal although they predict differently on some probe row");
+                    }
+                    check_roundtrip(&mut c, &a, eq_of(), &|mm: &KNNRegressor<f64, Euclidian>| predict_obs(mm.predict(&mat::<f64>(&q))));
+                }
+                _ => c.fail("serialise_never_fails", "corpus: KNNRegressor::fit failed on the corpus input"),
+            }
+            true
+        }
+        _ => false,
+    }
+}
+
+/// the minimised regression inputs of /verif/corpus/C19 (replay format), sorted by name
+fn run_corpus(out: &mut Out) {
+    let mut files: Vec<std::path::PathBuf> = std::fs::read_dir("/verif/corpus/C19").map(|d| d.filter_map(|e| e.ok().map(|e| e.path())).collect()).unwrap_or_default();
+    files.sort();
+    for f in files {
+        if f.extension().map(|e| e == "json").unwrap_or(false) {
+            let v = read_replay(&f.to_string_lossy());
+            let inp = if v.get("input").is_some() { v["input"].clone() } else { v.clone() };
+            if run_explicit(out, &inp) {
+                out.count("search:corpus-file");
+            } else {
+                out.count("search:corpus-file-unknown-entry(skipped)");
+            }
+        }
+    }
+}
+
 fn replay(path: &str) -> i32 {
     let v = read_replay(path);
     let inp = if v.get("input").is_some() { v["input"].clone() } else { v.clone() };
@@ -2173,6 +2243,12 @@ fn replay(path: &str) -> i32 {
             // unseeded estimators (SVC, KMeans): repeat a few times
             for _ in 0..3 {
                 run_case(&mut out, mode, &kind, seed, inp["f32"].as_bool());
+            }
+        }
+        "explicit" => {
+            if !run_explicit(&mut out, &inp) {
+                eprintln!("unknown explicit kind");
+                return 2;
             }
         }
         "codec" | "bincode" | "partial_eq" => {
@@ -2206,6 +2282,7 @@ fn main() {
     out.max_samples = 3;
 
     // ---- corpus + correspondence ----
+    run_corpus(&mut out);
     // (own stream: the number of draws depends on the state of unseeded fits)
     let mut rng_corr = rng.fork();
     c19_corr::run_corr(&mut out, &mut rng_corr, a.thorough);
